@@ -1,17 +1,25 @@
 //! C14 - the language server keeps the same document text as the editor.
 //!
-//! Black box over stdio against the real `trust-lsp` binary. The harness plays the editor:
-//! it keeps its own buffer, picks ranges on character boundaries, expresses them as LSP
-//! positions (line, UTF-16 column), applies each change to its buffer and sends it
-//! (incremental, multi-change and full-text notifications; columns past the end of a line,
-//! which LSP says clamp to the line end). Differential oracle: document A =
-//! didOpen(s0) + the changes, document B = didOpen(final buffer); semanticTokens/full,
-//! documentSymbol, foldingRange, formatting and pull diagnostics of A and B must be equal
-//! modulo URI (published diagnostics are collected and labelled only: the server writes
-//! them independently of responses and may truncate them, see `query`). Absolute oracle (offset -> position direction): every
-//! semantic token, symbol range, formatting range and diagnostic position the server
-//! reports must denote, in UTF-16 units, the place in the editor's text that the harness
-//! computes with its own reference conversion.
+//! Black box over stdio against the real `trust-lsp` binary. The harness plays the editor
+//! of a document that is a real file (`unit.st`) in a scratch workspace folder announced
+//! at initialize: it keeps its own buffer, picks ranges on character boundaries, expresses
+//! them as LSP positions (line, UTF-16 column), applies each change to its buffer and sends
+//! it (incremental, multi-change and full-text notifications; columns past the end of a
+//! line, which LSP says clamp to the line end). The session also contains what an editor's
+//! session contains besides typing: another tool rewrites or deletes the document's file
+//! and the client forwards `workspace/didChangeWatchedFiles` (Created / Changed / Deleted,
+//! also late echoes), the same for `lib.st`, another file of the workspace that the
+//! document references, `didSave`, and `didClose` + re-open (which loads the file's text).
+//! For an open document the editor's BUFFER is authoritative; the disk text must never
+//! leak into answers. Differential oracle: document A after the session, document B = a
+//! fresh directory with the same folder contents (lib.st and unit.st as they are on disk at
+//! the end) and one didOpen(final buffer); semanticTokens/full, documentSymbol,
+//! foldingRange, formatting and pull diagnostics of A and B must be equal modulo the
+//! directory URI (published diagnostics are collected and labelled only: the server writes
+//! them independently of responses and may truncate them, see `query`). Absolute oracle
+//! (offset -> position direction): every semantic token, symbol range, formatting range and
+//! diagnostic position the server reports must denote, in UTF-16 units, the place in the
+//! editor's text that the harness computes with its own reference conversion.
 
 pub mod lspc;
 
@@ -34,12 +42,13 @@ pub fn info() -> PropertyInfo {
     PropertyInfo {
         id: "C14",
         level: "exploration",
-        rule: "case = initial text (ST snippets with ASCII/Latin-1/CJK/combining/astral characters in comments, strings and stray code; LF, CRLF, mixed; with/without final newline) + 1-12 didChange notifications of 1-3 changes (insert/delete/replace on char boundaries expressed in UTF-16 columns, columns past end of line, full-text changes) sent to the real trust-lsp binary; non-trivial = at least one incremental change whose start lies on a line after a character with len_utf8 != 1 (label edit:after-astral when len_utf16 == 2); distinct by SHA-256 of the case",
+        rule: "case = initial text of the file unit.st in a scratch workspace folder (ST snippets with ASCII/Latin-1/CJK/combining/astral characters in comments, strings and stray code, optionally referencing FUNCTION LibF / TYPE LibT of the sibling file lib.st; LF, CRLF, mixed; with/without final newline) + a session of 1-12 steps sent to the real trust-lsp binary: didChange notifications of 1-3 changes (insert/delete/replace on char boundaries expressed in UTF-16 columns, columns past end of line, full-text changes), the file rewritten or deleted by another tool + workspace/didChangeWatchedFiles for it (Created/Changed/Deleted, late echoes), lib.st rewritten (5 variants) or deleted + watcher event, didSave, didClose + re-open; non-trivial = an incremental change whose start lies on a line after a character with len_utf8 != 1, or a watcher event for the open document's file while the file differs from the buffer or is deleted, or a change of lib.st; distinct by SHA-256 of the case",
         assumptions: &[
             "line terminators are LF and CRLF only (no lone CR; VS Code normalises those on load); every generated position is on a character boundary and never between CR and LF; lines beyond the last line are not generated (LSP leaves them undefined)",
             "a column beyond the end of a line denotes the end of the line's content, before CR LF (LSP 3.17 Position: 'defaults back to the line length'; line endings are not part of the line)",
-            "only what the server reveals through answers is compared (tokens, symbols, folding ranges, formatting echo, diagnostics); documents A and B live one after the other in the same server process (thorough: B also in a second process)",
+            "only what the server reveals through answers is compared (tokens, symbols, folding ranges, formatting echo, pulled diagnostics); documents A and B live one after the other in the same server process and workspace folder, in directories that are removed (and reported deleted) afterwards (thorough: B also in a second process with its own folder)",
             "identifiers are ASCII (the lexer rejects others); non-ASCII text sits in comments, string literals, pragmas and as stray characters in code",
+            "editor model: the buffer of an open document is authoritative whatever happens to its file; every disk change is followed by its watcher event (the server reads the file when it handles the event); re-opening loads the file's text; the workspace's background indexer runs only at server start and the client waits for its end before the first document",
         ],
         workers_quick: 8,
         workers_thorough: 8,
@@ -69,12 +78,67 @@ pub enum Change {
     Edit { start: Pos, end: Pos, text: String },
 }
 
+/// One step of an editor session on the document (file `unit.st` of a workspace folder)
+/// and on `lib.st`, another file of the workspace that the document references.
+#[derive(Clone, Debug, Serialize, Deserialize, PartialEq, Eq)]
+pub enum Op {
+    /// didChange with these content changes (applied in order to the evolving text).
+    Note(Vec<Change>),
+    /// Another tool rewrites the document's file; the client forwards the watcher event
+    /// (1 = Created, 2 = Changed). The editor's buffer is not touched.
+    DiskWrite { text: String, event: u8 },
+    /// The document's file is deleted (watcher event Deleted); the editor keeps its buffer.
+    DiskDelete,
+    /// A (late / duplicate) watcher event for the document's file without a disk change.
+    WatchEcho { event: u8 },
+    /// `lib.st` is (re)written with one of the library variants + watcher event.
+    LibWrite { variant: u8, event: u8 },
+    /// `lib.st` is deleted + watcher event Deleted.
+    LibDelete,
+    /// The editor saves: buffer written to the file, didSave (with text), optionally
+    /// followed by the watcher's Changed echo.
+    Save { echo: bool },
+    /// The editor closes the document (after saving it, or discarding the buffer) and opens
+    /// it again, which loads the file's text.
+    CloseReopen { save: bool },
+}
+
 #[derive(Clone, Debug, Serialize, Deserialize, PartialEq, Eq)]
 pub struct Case {
+    /// Text of the document's file when the editor opens it (= first buffer).
     pub s0: String,
-    /// didChange notifications, each with its content changes (applied in order to the
-    /// evolving text, as LSP prescribes).
+    /// Older replay files: a history of didChange notifications only.
+    #[serde(default)]
     pub notes: Vec<Vec<Change>>,
+    /// The session (when empty, `notes` is the session).
+    #[serde(default)]
+    pub ops: Vec<Op>,
+    /// Variant of `lib.st` present in the workspace when the session starts.
+    #[serde(default)]
+    pub lib0: Option<u8>,
+}
+
+impl Case {
+    pub fn session(&self) -> Vec<Op> {
+        if self.ops.is_empty() {
+            self.notes.iter().cloned().map(Op::Note).collect()
+        } else {
+            self.ops.clone()
+        }
+    }
+}
+
+/// Variants of the referenced library file: same names, different declarations, layout
+/// and characters, so that what the document's analysis sees depends on which one the
+/// server has indexed.
+pub fn lib_text(variant: u8) -> String {
+    match variant % 5 {
+        0 => "FUNCTION LibF : INT\nVAR_INPUT\n  a : INT;\nEND_VAR\nLibF := a;\nEND_FUNCTION\nTYPE LibT : STRUCT\n  f : INT;\nEND_STRUCT\nEND_TYPE\n".into(),
+        1 => "(* \u{1F600} v1 *)\nFUNCTION LibF : INT\nVAR_INPUT\n  a : BOOL;\n  b : INT;\nEND_VAR\nLibF := b;\nEND_FUNCTION\nTYPE LibT : STRUCT\n  g : REAL;\nEND_STRUCT\nEND_TYPE\n".into(),
+        2 => "TYPE LibT : (LibA, LibB); END_TYPE\n".into(),
+        3 => "FUNCTION LibF : BOOL\r\nVAR_INPUT a : INT; END_VAR\r\nLibF := a > 0;\r\nEND_FUNCTION\r\n".into(),
+        _ => String::new(),
+    }
 }
 
 // ---- generator -------------------------------------------------------------------------
@@ -288,15 +352,93 @@ fn insert_text(r: &mut Reader, eol: &str) -> String {
 /// The initial text and the change history are drawn from separate tapes, so that a long
 /// text cannot starve the history of choices (an exhausted tape yields only the simplest
 /// choice: a one-character ASCII insertion).
+/// References to the library file: a declaration before the first END_VAR line and a call
+/// after it (both with a comment that may hold wide characters).
+fn add_lib_references(text: &str, r: &mut Reader) -> String {
+    let mut out = String::new();
+    let mut done = false;
+    for line in text.split_inclusive('\n') {
+        let body = line.trim_end_matches(['\r', '\n']);
+        let eol = &line[body.len()..];
+        let eol = if eol.is_empty() { "\n" } else { eol };
+        if !done && body.trim() == "END_VAR" {
+            out.push_str(&format!("  lv : LibT; lw : INT;{}{eol}", trail(r)));
+            out.push_str(line);
+            if !line.ends_with('\n') {
+                out.push_str(eol);
+            }
+            out.push_str(&format!("{}lw := LibF(a := 1);{}{eol}", lead(r), trail(r)));
+            done = true;
+        } else {
+            out.push_str(line);
+        }
+    }
+    out
+}
+
 pub fn case_from_tapes(text_tape: &Tape, tape: &Tape) -> Case {
     let mut tr = Reader::new(text_tape);
     let eol_mode = tr.weighted(&[5, 3, 2]);
-    let s0 = gen_text(&mut tr, eol_mode);
+    // (drawn before the text, which may use up the tape)
+    let lib0 = match tr.weighted(&[5, 2, 2, 1]) {
+        0 => Some(0u8),
+        1 => None,
+        2 => Some(1),
+        _ => Some(3),
+    };
+    let with_refs = tr.weighted(&[3, 1]) == 0;
+    let mut s0 = gen_text(&mut tr, eol_mode);
+    if with_refs {
+        s0 = add_lib_references(&s0, &mut tr);
+    }
     let mut r = Reader::new(tape);
     let mut buf = s0.clone();
-    let n_notes = 1 + r.weighted(&[4, 4, 3, 3, 2, 2, 1, 1, 1, 1, 1, 1]);
-    let mut notes = Vec::new();
-    for _ in 0..n_notes {
+    let mut disk: Option<String> = Some(s0.clone());
+    let n_ops = 1 + r.weighted(&[4, 4, 3, 3, 2, 2, 1, 1, 1, 1, 1, 1]);
+    let mut ops = Vec::new();
+    for _ in 0..n_ops {
+        // (rare alternatives in the middle: tape words are biased towards 0 and u32::MAX)
+        let op = match r.weighted(&[8, 3, 2, 1, 1, 1, 1, 1, 2]) {
+            1 => {
+                let text = match r.weighted(&[3, 2, 2, 1, 1]) {
+                    0 => format!("(* regenerated {} *)\n{buf}", uni_run(&mut r)),
+                    1 => gen_text(&mut r, eol_mode),
+                    2 => buf.split_inclusive('\n').skip(1).collect::<String>(),
+                    3 => String::new(),
+                    _ => buf.clone(),
+                };
+                disk = Some(text.clone());
+                Op::DiskWrite { text, event: if r.weighted(&[3, 1]) == 1 { 1 } else { 2 } }
+            }
+            2 => Op::LibWrite { variant: r.pick(5) as u8, event: 1 + r.pick(2) as u8 },
+            3 => {
+                disk = Some(buf.clone());
+                Op::Save { echo: r.flag() }
+            }
+            4 => {
+                disk = None;
+                Op::DiskDelete
+            }
+            5 => {
+                let save = disk.is_none() || r.flag();
+                if save {
+                    disk = Some(buf.clone());
+                }
+                buf = disk.clone().unwrap_or_default();
+                Op::CloseReopen { save }
+            }
+            6 => Op::LibDelete,
+            7 => Op::WatchEcho { event: 1 + r.pick(3) as u8 },
+            _ => Op::Note(gen_note(&mut r, &mut buf, eol_mode)),
+        };
+        ops.push(op);
+    }
+    Case { s0, notes: Vec::new(), ops, lib0 }
+}
+
+fn gen_note(r: &mut Reader, buf: &mut String, eol_mode: usize) -> Vec<Change> {
+    let mut r = r;
+    {
         let n_changes = 1 + r.weighted(&[5, 3, 2]);
         let mut changes = Vec::new();
         for _ in 0..n_changes {
@@ -320,7 +462,7 @@ pub fn case_from_tapes(text_tape: &Tape, tape: &Tape) -> Case {
                 } else {
                     buf.replace('\n', "\r\n")
                 };
-                buf = text.clone();
+                *buf = text.clone();
                 changes.push(Change::Full { text });
                 continue;
             }
@@ -368,9 +510,8 @@ pub fn case_from_tapes(text_tape: &Tape, tape: &Tape) -> Case {
             buf.replace_range(start..end, &text);
             changes.push(Change::Edit { start: sp, end: ep, text });
         }
-        notes.push(changes);
+        changes
     }
-    Case { s0, notes }
 }
 
 // ---- model (the editor) -------------------------------------------------------------------
@@ -385,6 +526,14 @@ struct Facts {
     past_eol_crlf: bool,
     full: bool,
     multi: bool,
+    disk_write: bool,
+    disk_write_differs: bool,
+    disk_delete: bool,
+    watch_echo: bool,
+    lib_write: bool,
+    lib_delete: bool,
+    save: bool,
+    reopen: bool,
     multiline_edit: bool,
     edits: usize,
 }
@@ -473,7 +622,7 @@ fn strip_result_id(v: &J) -> J {
     }
 }
 
-fn query(s: &mut Server, uri: &str, publishes: u64) -> Result<Answers, LspError> {
+fn query(s: &mut Server, uri: &str, dir_uri: &str) -> Result<Answers, LspError> {
     let tokens = s.doc_request("textDocument/semanticTokens/full", uri)?;
     let symbols = s.doc_request("textDocument/documentSymbol", uri)?;
     let folding = s.doc_request("textDocument/foldingRange", uri)?;
@@ -484,38 +633,228 @@ fn query(s: &mut Server, uri: &str, publishes: u64) -> Result<Answers, LspError>
     let diag_pull = s.doc_request("textDocument/diagnostic", uri)?;
     // Published diagnostics are a statistic only, never part of the verdict: the server
     // writes them to the wire independently of responses, re-publishes from other handlers
-    // and truncates a computation that another thread "cancelled", so the latest one seen
-    // is not reliably the one for the final text. One is expected per didOpen / applied
-    // didChange; Null = fewer than that have arrived by now.
-    let published = s.wait_publish(uri, publishes, std::time::Duration::from_millis(0))?;
-    let diag_push = published.and_then(|p| p.get("diagnostics").cloned()).unwrap_or(J::Null);
+    // (watcher events, deletion) and truncates a computation that another thread
+    // "cancelled", so the latest one seen is not reliably the one for the final text.
+    s.drain()?;
+    let diag_push = s
+        .published
+        .get(uri)
+        .and_then(|(_, p)| p.get("diagnostics").cloned())
+        .unwrap_or(J::Null);
+    // "equal modulo URI": the directory part is replaced, so that references to the
+    // sibling file lib.st compare equal too
     Ok(Answers {
-        tokens: scrub_uri(&tokens.get("data").cloned().unwrap_or(tokens.clone()), uri),
-        symbols: scrub_uri(&symbols, uri),
-        folding: scrub_uri(&folding, uri),
-        formatting: scrub_uri(&formatting, uri),
-        diag_pull: scrub_uri(&strip_result_id(&diag_pull), uri),
-        diag_push: scrub_uri(&diag_push, uri),
+        tokens: scrub_uri(&tokens.get("data").cloned().unwrap_or(tokens.clone()), dir_uri),
+        symbols: scrub_uri(&symbols, dir_uri),
+        folding: scrub_uri(&folding, dir_uri),
+        formatting: scrub_uri(&formatting, dir_uri),
+        diag_pull: scrub_uri(&strip_result_id(&diag_pull), dir_uri),
+        diag_push: scrub_uri(&diag_push, dir_uri),
     })
 }
 
-fn run_a(s: &mut Server, uri: &str, case: &Case) -> Result<Answers, LspError> {
-    s.did_open(uri, 1, &case.s0)?;
-    let mut version = 1;
-    for note in &case.notes {
-        version += 1;
-        let changes: Vec<J> = note.iter().map(change_json).collect();
-        s.did_change(uri, version, J::Array(changes))?;
+/// What the client does, step by step (derived from the session by `simulate`).
+#[derive(Debug)]
+enum Step {
+    Change(J),
+    WriteMain(String),
+    RemoveMain,
+    WriteLib(String),
+    RemoveLib,
+    /// watcher events: (true = the document's file, false = lib.st; type)
+    Watch(Vec<(bool, u8)>),
+    DidSave(String),
+    Close,
+    Open(String),
+}
+
+/// The editor's view at the end of the session.
+struct Outcome {
+    steps: Vec<Step>,
+    /// the editor's buffer (authoritative for the open document)
+    buffer: String,
+    /// the document's file on disk (None = deleted)
+    disk: Option<String>,
+    /// lib.st on disk
+    lib: Option<String>,
+    facts: Facts,
+}
+
+/// Play the session on the editor's side. None = a position names a line that does not
+/// exist (only possible in a hand-written replay).
+fn simulate(case: &Case) -> Option<Outcome> {
+    let mut buf = case.s0.clone();
+    let mut disk = Some(case.s0.clone());
+    let mut lib = case.lib0.map(lib_text);
+    let mut facts = Facts::default();
+    let mut steps = Vec::new();
+    for op in case.session() {
+        match op {
+            Op::Note(changes) => {
+                if changes.len() > 1 {
+                    facts.multi = true;
+                }
+                for ch in &changes {
+                    apply_change(&mut buf, ch, &mut facts)?;
+                }
+                steps.push(Step::Change(J::Array(changes.iter().map(change_json).collect())));
+            }
+            Op::DiskWrite { text, event } => {
+                facts.disk_write = true;
+                if text != buf {
+                    facts.disk_write_differs = true;
+                }
+                disk = Some(text.clone());
+                steps.push(Step::WriteMain(text));
+                steps.push(Step::Watch(vec![(true, if event == 1 { 1 } else { 2 })]));
+            }
+            Op::DiskDelete => {
+                facts.disk_delete = true;
+                disk = None;
+                steps.push(Step::RemoveMain);
+                steps.push(Step::Watch(vec![(true, 3)]));
+            }
+            Op::WatchEcho { event } => {
+                facts.watch_echo = true;
+                // a Deleted echo is only sent for a file that is really gone
+                let event = if event == 3 && disk.is_some() { 2 } else { event.clamp(1, 3) };
+                steps.push(Step::Watch(vec![(true, event)]));
+            }
+            Op::LibWrite { variant, event } => {
+                facts.lib_write = true;
+                let text = lib_text(variant);
+                lib = Some(text.clone());
+                steps.push(Step::WriteLib(text));
+                steps.push(Step::Watch(vec![(false, if event == 1 { 1 } else { 2 })]));
+            }
+            Op::LibDelete => {
+                facts.lib_delete = true;
+                lib = None;
+                steps.push(Step::RemoveLib);
+                steps.push(Step::Watch(vec![(false, 3)]));
+            }
+            Op::Save { echo } => {
+                facts.save = true;
+                disk = Some(buf.clone());
+                steps.push(Step::WriteMain(buf.clone()));
+                steps.push(Step::DidSave(buf.clone()));
+                if echo {
+                    steps.push(Step::Watch(vec![(true, 2)]));
+                }
+            }
+            Op::CloseReopen { save } => {
+                facts.reopen = true;
+                let save = save || disk.is_none();
+                if save {
+                    disk = Some(buf.clone());
+                    steps.push(Step::WriteMain(buf.clone()));
+                    steps.push(Step::DidSave(buf.clone()));
+                }
+                steps.push(Step::Close);
+                buf = disk.clone().unwrap_or_default();
+                steps.push(Step::Open(buf.clone()));
+            }
+        }
     }
-    let a = query(s, uri, 1 + case.notes.len() as u64);
-    s.close_and_forget(uri)?;
+    Some(Outcome { steps, buffer: buf, disk, lib, facts })
+}
+
+/// Directory of one document inside the server's workspace folder.
+struct Place {
+    dir: std::path::PathBuf,
+    dir_uri: String,
+    uri: String,
+    lib_uri: String,
+}
+
+impl Place {
+    fn new(ws: &std::path::Path, name: &str) -> Place {
+        let dir = ws.join(name);
+        let dir_uri = format!("file://{}", dir.display());
+        Place { uri: format!("{dir_uri}/unit.st"), lib_uri: format!("{dir_uri}/lib.st"), dir_uri, dir }
+    }
+    fn main_path(&self) -> std::path::PathBuf {
+        self.dir.join("unit.st")
+    }
+    fn lib_path(&self) -> std::path::PathBuf {
+        self.dir.join("lib.st")
+    }
+}
+
+fn io<T>(r: std::io::Result<T>, what: &str) -> Result<T, LspError> {
+    r.map_err(|e| LspError::Infra(format!("scratch workspace: {what}: {e}")))
+}
+
+/// Close the document, delete the directory and tell the server both files are gone, so
+/// that nothing of this document stays in the project.
+fn teardown(s: &mut Server, p: &Place) -> Result<(), LspError> {
+    s.notify("textDocument/didClose", json!({"textDocument": {"uri": p.uri}}))?;
+    let _ = std::fs::remove_dir_all(&p.dir);
+    s.watched(&[(&p.uri, 3), (&p.lib_uri, 3)])?;
+    s.barrier()
+}
+
+fn run_a(s: &mut Server, p: &Place, case: &Case, out: &Outcome) -> Result<Answers, LspError> {
+    io(std::fs::create_dir_all(&p.dir), "create directory")?;
+    if let Some(v) = case.lib0 {
+        io(std::fs::write(p.lib_path(), lib_text(v)), "write lib.st")?;
+        s.watched(&[(&p.lib_uri, 1)])?;
+    }
+    io(std::fs::write(p.main_path(), &case.s0), "write unit.st")?;
+    s.did_open(&p.uri, 1, &case.s0)?;
+    let mut version = 1;
+    for step in &out.steps {
+        match step {
+            Step::Change(changes) => {
+                version += 1;
+                s.did_change(&p.uri, version, changes.clone())?;
+            }
+            Step::WriteMain(t) => io(std::fs::write(p.main_path(), t), "write unit.st")?,
+            Step::RemoveMain => {
+                let _ = std::fs::remove_file(p.main_path());
+            }
+            Step::WriteLib(t) => io(std::fs::write(p.lib_path(), t), "write lib.st")?,
+            Step::RemoveLib => {
+                let _ = std::fs::remove_file(p.lib_path());
+            }
+            Step::Watch(events) => {
+                let ev: Vec<(&str, u8)> = events
+                    .iter()
+                    .map(|(main, t)| (if *main { p.uri.as_str() } else { p.lib_uri.as_str() }, *t))
+                    .collect();
+                s.watched(&ev)?;
+            }
+            Step::DidSave(t) => {
+                s.notify("textDocument/didSave", json!({"textDocument": {"uri": p.uri}, "text": t}))?;
+            }
+            Step::Close => {
+                s.notify("textDocument/didClose", json!({"textDocument": {"uri": p.uri}}))?;
+            }
+            Step::Open(t) => {
+                version = 1;
+                s.did_open(&p.uri, version, t)?;
+            }
+        }
+    }
+    let a = query(s, &p.uri, &p.dir_uri);
+    teardown(s, p)?;
     a
 }
 
-fn run_b(s: &mut Server, uri: &str, text: &str) -> Result<Answers, LspError> {
-    s.did_open(uri, 1, text)?;
-    let a = query(s, uri, 1);
-    s.close_and_forget(uri)?;
+/// The fresh document: same folder contents (lib.st and the document's file as they are
+/// on disk at the end of the session), one didOpen with the editor's buffer.
+fn run_b(s: &mut Server, p: &Place, out: &Outcome) -> Result<Answers, LspError> {
+    io(std::fs::create_dir_all(&p.dir), "create directory")?;
+    if let Some(lib) = &out.lib {
+        io(std::fs::write(p.lib_path(), lib), "write lib.st")?;
+        s.watched(&[(&p.lib_uri, 1)])?;
+    }
+    if let Some(disk) = &out.disk {
+        io(std::fs::write(p.main_path(), disk), "write unit.st")?;
+    }
+    s.did_open(&p.uri, 1, &out.buffer)?;
+    let a = query(s, &p.uri, &p.dir_uri);
+    teardown(s, p)?;
     a
 }
 
@@ -722,25 +1061,20 @@ struct Env {
     pool: Pool,
     /// second server process for document B (thorough tier)
     pool_b: Option<Pool>,
+    #[allow(dead_code)]
     worker: usize,
     counter: Cell<u64>,
 }
 
 fn check_case(case: &Case, probe: &mut Probe, env: &Env) -> Result<(), String> {
     // the editor's side
-    let mut buf = case.s0.clone();
-    let mut facts = Facts::default();
-    for note in &case.notes {
-        if note.len() > 1 {
-            facts.multi = true;
-        }
-        for ch in note {
-            if apply_change(&mut buf, ch, &mut facts).is_none() {
-                probe.label("skipped:position-on-missing-line");
-                return Ok(());
-            }
-        }
-    }
+    let Some(out) = simulate(case) else {
+        probe.label("skipped:position-on-missing-line");
+        return Ok(());
+    };
+    let facts = &out.facts;
+    let buf = out.buffer.clone();
+    let session = case.session();
     let lone_cr = |t: &str| t.replace("\r\n", "").contains('\r');
     if lone_cr(&case.s0) || lone_cr(&buf) {
         probe.label("skipped:lone-cr");
@@ -762,12 +1096,24 @@ fn check_case(case: &Case, probe: &mut Probe, env: &Env) -> Result<(), String> {
         (facts.full, "change:full"),
         (facts.multi, "note:multi-change"),
         (facts.multiline_edit, "edit:multi-line"),
+        (facts.disk_write, "op:disk-write+watch"),
+        (facts.disk_write_differs, "op:disk-write-differs-from-buffer"),
+        (facts.disk_delete, "op:disk-delete+watch"),
+        (facts.watch_echo, "op:watch-echo"),
+        (facts.lib_write, "op:lib-write+watch"),
+        (facts.lib_delete, "op:lib-delete+watch"),
+        (facts.save, "op:save"),
+        (facts.reopen, "op:close-reopen"),
+        (out.disk.as_deref() != Some(buf.as_str()), "end:disk-differs-from-buffer"),
+        (out.disk.is_none(), "end:file-deleted"),
+        (out.lib.is_some(), "end:lib-present"),
+        (case.s0.contains("LibF"), "text:references-lib"),
     ] {
         if flag {
             probe.label(name);
         }
     }
-    probe.label(format!("notes={}", match case.notes.len() {
+    probe.label(format!("ops={}", match session.len() {
         0 => "0",
         1 => "1",
         2..=4 => "2-4",
@@ -776,10 +1122,16 @@ fn check_case(case: &Case, probe: &mut Probe, env: &Env) -> Result<(), String> {
 
     let k = env.counter.get();
     env.counter.set(k + 1);
-    let uri_a = format!("file:///tpv-c14/w{}/k{k}/a/unit.st", env.worker);
-    let uri_b = format!("file:///tpv-c14/w{}/k{k}/b/unit.st", env.worker);
+    let Some(ws_a) = env.pool.workspace_dir() else {
+        probe.label("skipped:infrastructure");
+        return Ok(());
+    };
+    let place_a = Place::new(&ws_a, &format!("k{k}a"));
 
-    let Some(a) = settle(env.pool.with(|s| run_a(s, &uri_a, case)))? else {
+    let res_a = env.pool.with(|s| run_a(s, &place_a, case, &out));
+    // whatever happened: nothing of this case may be left for the indexer of a restarted server
+    let _ = std::fs::remove_dir_all(&place_a.dir);
+    let Some(a) = settle(res_a)? else {
         probe.label("skipped:infrastructure");
         return Ok(());
     };
@@ -790,25 +1142,34 @@ fn check_case(case: &Case, probe: &mut Probe, env: &Env) -> Result<(), String> {
         }
         _ => &env.pool,
     };
-    let Some(b) = settle(b_pool.with(|s| run_b(s, &uri_b, &buf)))? else {
+    let place_b = Place::new(&b_pool.workspace_dir().unwrap_or(ws_a), &format!("k{k}b"));
+    let res_b = b_pool.with(|s| run_b(s, &place_b, &out));
+    let _ = std::fs::remove_dir_all(&place_b.dir);
+    let Some(b) = settle(res_b)? else {
         probe.label("skipped:infrastructure");
         return Ok(());
     };
 
-    if facts.after_astral || facts.after_bmp || facts.after_combining {
+    if facts.after_astral
+        || facts.after_bmp
+        || facts.after_combining
+        || facts.disk_write_differs
+        || facts.disk_delete
+        || facts.lib_write
+        || facts.lib_delete
+    {
         let key = serde_json::to_vec(case).unwrap_or_default();
         probe.nontrivial(&key);
         probe.sample(json!({
             "s0": clip(&case.s0, 160),
-            "notifications": case.notes.len(),
-            "first_change": case.notes.first().and_then(|n| n.first()).map(|c| clip(&format!("{c:?}"), 160)),
-            "final": clip(&buf, 160),
+            "ops": session.iter().map(|o| clip(&format!("{o:?}"), 80)).collect::<Vec<_>>(),
+            "final_buffer": clip(&buf, 160),
         }));
     }
     for (who, ans) in [("a", &a), ("b", &b)] {
         let pulled = ans.diag_pull.get("items").cloned().unwrap_or(J::Null);
         if ans.diag_push.is_null() {
-            probe.label(format!("push({who}):not-all-arrived-yet"));
+            probe.label(format!("push({who}):none-yet"));
         } else if ans.diag_push == pulled {
             probe.label(format!("push({who})=pull"));
         } else {
@@ -825,9 +1186,10 @@ fn check_case(case: &Case, probe: &mut Probe, env: &Env) -> Result<(), String> {
     ] {
         if x != y {
             return Err(format!(
-                "server text diverged from the editor's: {what} of the edited document differs from the same request on a freshly opened copy of the editor's buffer: {}\n  editor buffer: {:?}",
+                "server text diverged from the editor's: {what} of the document after the session differs from the same request on a freshly opened copy of the editor's buffer (same folder contents): {}\n  editor buffer: {:?}\n  file on disk: {:?}",
                 first_diff(x, y),
-                clip(&buf, 300)
+                clip(&buf, 300),
+                out.disk.as_deref().map(|d| clip(d, 120))
             ));
         }
         if x.get("$error").is_some() {
